@@ -3,6 +3,9 @@
 mod distribution;
 mod hyperparams;
 mod link;
+#[cfg(linfa_verif)]
+#[path = "../verif_hooks_c12.rs"]
+pub mod verif_hooks_c12;
 
 use crate::error::{LinearError, Result};
 use crate::float::Float;
